@@ -527,6 +527,14 @@ impl World {
             let (sig, msg) = f.split_once('|').unwrap_or(("weak:oracle", &f));
             return fail(sig, msg.to_string());
         }
+        // additive hook point (C06): a driver may inspect the post-collection state and declare
+        // additional shadow / real roots (EXTRA_ROOTS, EXTRA_REAL_ROOTS) before the graph check
+        if let Some(h) = PRE_VERIFY_HOOK.with(|h| h.get()) {
+            if let Err(e) = h(self, n, &events) {
+                self.last_report.events = events;
+                return Err(e);
+            }
+        }
         let r = self.verify_heap(n);
         self.last_report.events = events;
         r?;
@@ -848,6 +856,9 @@ thread_local! {
     pub static EXTRA_ROOTS: std::cell::RefCell<Vec<u64>> = const { std::cell::RefCell::new(vec![]) };
     /// Additional real slots to walk: (slot address, expected id, description).
     pub static EXTRA_REAL_ROOTS: std::cell::RefCell<Vec<(usize, u64, String)>> = const { std::cell::RefCell::new(vec![]) };
+    /// Run by `after_possible_gc` after a collection (or a batch of `n` collections) and before
+    /// `verify_heap`, with the binding's upcall events of that batch.  None = no hook (default).
+    pub static PRE_VERIFY_HOOK: std::cell::Cell<Option<fn(&mut World, u64, &[VmEvent]) -> Result<(), Fail>>> = const { std::cell::Cell::new(None) };
 }
 
 // ---------------------------------------------------------------------------------------------
